@@ -312,6 +312,22 @@ def check_basic(case):
     ok2, res2 = _call(out, "x.xor(y, %r, mode='r') %s" % (cols, lab), lambda: x.xor(y, cols, mode='r'), dict(op='xor-r', **sig))
     if ok2:
         check_xor(out, "x.xor(y, %r, mode='r') %s" % (cols, lab), res2, rrows, lrows, kf, kf, list(rrows[0].keys()) if rrows else [], 'w', dict(op='xor-r', **sig))
+    if ncol > 1:
+        # the same join with the key names listed in reverse, and against a right table that stores its columns in reverse order:
+        # names, not positions, decide which columns are compared
+        from pyg_base import dictable
+        yr = dictable({c: list(y[c]) for c in list(y.keys())[::-1]})
+        for name, f in (('x.join(y, reversed names)', lambda: x.join(y, lnames[::-1])), ('x.join(y stored in reverse column order, names)', lambda: x.join(yr, lnames)),
+                        ('x.join(y stored in reverse, names, names)', lambda: x.join(yr, lnames, lnames))):
+            out.sub()
+            okr, resr = _call(out, '%s %s' % (name, lab), f, dict(op='join', variant=name[:24], **sig))
+            if okr:
+                check_join(out, '%s %s' % (name, lab), resr, lrows, rrows, kf, kf, lnames, None, dict(op='join', variant=name[:24], **sig))
+        out.sub()
+        okr, resr = _call(out, 'x.xor(y stored in reverse column order, names) %s' % lab, lambda: x.xor(yr, lnames), dict(op='xor', variant='reversed', **sig))
+        if okr:
+            check_xor(out, 'x.xor(y stored in reverse column order, names) %s' % lab, resr, lrows, rrows, kf, kf, list(lrows[0].keys()) if lrows else [], 'v',
+                      dict(op='xor', variant='reversed', **sig))
     if not (_unchanged(x, sx) and _unchanged(y, sy)):
         out.viol('operand-mutated', '%s: an operand changed' % lab, **sig)
     _nontrivial(out, lk, rk)
